@@ -247,6 +247,9 @@ def check_all(ctx, module_suffixes=None, funcs=None, rules=('DEADPARAM', 'FORWAR
     out['shadow'] = instance_shadow_updates(ctx, funcs)
     out['lengths'] = stale_lengths(ctx, funcs)
     out['bounds'] = index_vs_len(ctx, funcs)
+    from . import memo
+    out['memo'] = memo.check(ctx, funcs)
+    out['validate'] = validated_on_every_path(ctx, funcs)
     ctx.ok('FORWARD', f"option forwarding in {len(funcs)} functions",
            f"{out.get('params', 0)} parameters examined for use, {out.get('forwarded', 0)} arguments handed "
            f"down under a parameter name, {out.get('defaults', 0)} default pairs compared, "
@@ -519,4 +522,177 @@ def index_vs_len(ctx, funcs, rule='BOUND'):
                                   f"`{norm(c)}`: the index of enumerate({seq}) runs from {start} to len({seq}) - 1{' + ' + str(start) if start else ''}, "
                                   f"so this is never true and the branch for the LAST element never runs (text after the last match is "
                                   f"neither a block nor reported)", key=f"{rule}|{fi.qualname}|index-eq-len|{idx}", where=common.loc(fi, c))
+    return n
+
+
+# ----------------------------------------------------------------------
+# VALIDATE: an argument that a callee checks (raises on) is checked on every
+# path through the wrapper that hands it down
+def _derived_from(fi, names):
+    """locals of fi whose value derives from any of ``names`` (flow-insensitive)"""
+    from .memo import _Inputs
+    inp = _Inputs(None, fi)
+    out = set(names)
+    changed = True
+    while changed:
+        changed = False
+        for loc_, exprs in inp.defs.items():
+            if loc_ in out:
+                continue
+            if any(isinstance(n, ast.Name) and n.id in out for e in exprs for n in ast.walk(e)):
+                out.add(loc_)
+                changed = True
+    return out
+
+
+def validated_params(ctx, g, depth=3, _memo=None):
+    """parameters of ``g`` that some raise in g (or in a callee the parameter
+    is handed to) is conditional on"""
+    _memo = _memo if _memo is not None else {}
+    if g.fullname in _memo:
+        return _memo[g.fullname]
+    _memo[g.fullname] = set()
+    from ..srcmodel import facts_at
+    out = set()
+    params = _own_params(g)
+    der = {p: _derived_from(g, {p}) for p in params}
+    for r in walk_local(g.node):
+        if isinstance(r, ast.Raise):
+            names = {n.id for e, _t, _p in facts_at(r) for n in ast.walk(e) if isinstance(n, ast.Name)}
+            # raise inside `except` that follows a conversion of the parameter (int(p), d[p])
+            h = getattr(r, '_parent', None)
+            while h is not None and not isinstance(h, (ast.FunctionDef, ast.ExceptHandler)):
+                h = getattr(h, '_parent', None)
+            if isinstance(h, ast.ExceptHandler):
+                t = getattr(h, '_parent', None)
+                if isinstance(t, ast.Try):
+                    names |= {n.id for b in t.body for n in ast.walk(b) if isinstance(n, ast.Name)}
+            for p in params:
+                if names & der[p]:
+                    out.add(p)
+    if depth > 0:
+        for c in walk_local(g.node):
+            if not isinstance(c, ast.Call):
+                continue
+            r = resolve(ctx, g, c)
+            if not r:
+                continue
+            cf, pos, kwo = r
+            vp = validated_params(ctx, cf, depth - 1, _memo)
+            if not vp:
+                continue
+            for i, a in enumerate(c.args):
+                if i < len(pos) and pos[i] in vp and isinstance(a, ast.Name):
+                    out |= {p for p in params if a.id in der[p]}
+            for k in c.keywords:
+                if k.arg in vp and isinstance(k.value, ast.Name):
+                    out |= {p for p in params if k.value.id in der[p]}
+    _memo[g.fullname] = out
+    return out
+
+
+def _stmt_of(node):
+    st = node
+    while st is not None and not isinstance(st, ast.stmt):
+        st = getattr(st, '_parent', None)
+    return st
+
+
+def _dominates(call, target_stmt, func_node):
+    """the statement holding ``call`` is a direct child of a block on the
+    ancestor chain of ``target_stmt`` (or of the function body) and comes first"""
+    sc = _stmt_of(call)
+    # no short-circuit / conditional expression between the statement and the call
+    x = call
+    while x is not sc:
+        p = getattr(x, '_parent', None)
+        if isinstance(p, (ast.IfExp, ast.BoolOp, ast.Lambda, ast.ListComp, ast.GeneratorExp, ast.DictComp, ast.SetComp)) \
+                and not (isinstance(p, ast.IfExp) and x is p.test) \
+                and not (isinstance(p, ast.BoolOp) and x is p.values[0]):
+            return False
+        x = p
+    owner = getattr(sc, '_parent', None)
+    blk = None
+    for field in ('body', 'orelse', 'finalbody'):
+        b = getattr(owner, field, None)
+        if isinstance(b, list) and sc in b:
+            blk = b
+    if blk is None:
+        return False
+    if isinstance(owner, (ast.For, ast.While)):
+        # inside a loop: dominates only later statements of the same iteration
+        pass
+    if target_stmt is None:                     # falling off the end of the function
+        return owner is func_node and blk is func_node.body
+    t = target_stmt
+    while t is not None and t is not func_node:
+        p = getattr(t, '_parent', None)
+        if p is owner and t in blk:
+            return blk.index(t) > blk.index(sc)
+        t = p
+    return False
+
+
+def validated_on_every_path(ctx, funcs, rule='VALIDATE'):
+    from ..srcmodel import facts_at, _always_exits
+    n = 0
+    memo_ = {}
+    for fi in funcs:
+        params = _own_params(fi)
+        if not params:
+            continue
+        handed = {}     # param -> [(call, callee)]
+        for c in walk_local(fi.node):
+            if not isinstance(c, ast.Call):
+                continue
+            r = resolve(ctx, fi, c)
+            if not r:
+                continue
+            cf, pos, kwo = r
+            vp = validated_params(ctx, cf, 3, memo_)
+            if not vp:
+                continue
+            for i, a in enumerate(c.args):
+                if i < len(pos) and pos[i] in vp and isinstance(a, ast.Name) and a.id in params:
+                    handed.setdefault(a.id, []).append((c, cf))
+            for k in c.keywords:
+                if k.arg in vp and isinstance(k.value, ast.Name) and k.value.id in params:
+                    handed.setdefault(k.value.id, []).append((c, cf))
+        if not handed:
+            continue
+        exits = [r for r in walk_local(fi.node) if isinstance(r, ast.Return)]
+        for p, sites in handed.items():
+            # only the exact shape: the validating call is an unconditional top-level
+            # statement of the wrapper, and a `return` sits in front of it
+            all_sites = sites
+            sites = [(c, cf) for c, cf in sites
+                     if _stmt_of(c) in fi.node.body and _dominates(c, None, fi.node)]
+            if not sites:
+                continue
+            first = min(fi.node.body.index(_stmt_of(c)) for c, _cf in sites)
+            n += 1
+            der = _derived_from(fi, {p})
+            bad = []
+            for ex in exits:
+                top = ex
+                while getattr(top, '_parent', None) is not fi.node:
+                    top = top._parent
+                if top not in fi.node.body or fi.node.body.index(top) >= first:
+                    continue
+                if True:
+                    names = {x.id for e, _t, _pl in facts_at(ex) for x in ast.walk(e) if isinstance(x, ast.Name)}
+                    if names & der:
+                        continue        # the path is chosen by looking at the argument itself
+                    # a call that holds the validating call in its own statement (return g(p))
+                    if any(_stmt_of(c) is ex for c, _cf in all_sites):
+                        continue
+                bad.append(ex)
+            callee = sites[0][1].qualname
+            where = common.loc(fi, bad[0]) if bad and bad[0] is not None else fi.loc
+            ctx.check(not bad, rule, f"{fi.qualname}: `{p}` reaches {callee} (which rejects illegal values) on every path",
+                      detail_bad=f"{fi.qualname} can return "
+                                 f"{'at line ' + str(bad[0].lineno) if bad and bad[0] is not None else 'at its end'} "
+                                 f"without handing `{p}` to {callee}: an illegal value is silently accepted on that path "
+                                 f"(the path is not chosen by looking at `{p}`)",
+                      key=f"{rule}|{fi.qualname}|{p}|{callee}", where=where)
     return n
